@@ -10,6 +10,8 @@ Exit 0: conforms; 1: a difference (line "DIFFERENCE spec=SQRepl ..."); 2: machin
 import json, os, random, sys
 sys.path.insert(0, '/verif')
 from harness import common, vmrun, repl_conf, engine
+os.environ.pop('VERIF_SCRATCH_ROOT', None)
+common.scratch_root()
 
 tier = sys.argv[1] if len(sys.argv) > 1 else 'quick'
 quick = tier == 'quick'
